@@ -4,6 +4,7 @@ import CookModel.Lemmas.ParserBlocks
 import CookModel.Lemmas.Blocks
 import CookModel.Lemmas.ClosingFold
 import CookModel.Lemmas.ClosingStream
+import CookModel.Lemmas.CloseC03
 /-
   C03  No input makes a public entry point panic, overflow or hang.
 
@@ -361,6 +362,15 @@ theorem C03_holds_partial
     (hsp : ∀ (env : Env) (input : Str), SpansOK input (pullEvents (α := Rat) env.cs env.ext input).1.toList) :
     C03_statement :=
   fun env input => ⟨C03_parse_no_panic_partial env input (hsp env input), C03_parse_metadata_no_panic env input⟩
+
+/-- **C03, the modelled part, in full**: for every environment (character tables, extension bits,
+    converter keys, std-metadata verdicts, case folding) and every input, neither `parse` nor
+    `parse_metadata` reaches any `assert!/unwrap/expect/panic!/index/slice` site of the modelled code
+    and no loop runs out of fuel.  The span hypothesis of `C03_holds_partial` is discharged by the
+    C04 result that every span of every parser event is a valid span of the input
+    (`pullEvents_spansOK`, from `C04_event_spans_ok`). -/
+theorem C03_holds : C03_statement :=
+  C03_holds_partial (fun env input => pullEvents_spansOK (α := Rat) env.cs env.ext input)
 
 /-! non-vacuity of the three hypotheses: a step with a component and an intermediate reference, then a
     mode switch between blocks, then a text block -/
